@@ -155,7 +155,7 @@ def run(ctx, report):
     # ------------------------------------------------------------------ list registries with a v2 file
     e = lambda cc, code, bic, **kw: dict({"country_code": cc, "bank_code": code, "bic": bic, "name": "n", "short_name": "s", "primary": True}, **kw)
     list_files = [
-        ("generated_zz.json", [e("ZZ", "001", "AAAAZZ00")]),
+        ("generated_zz.json", [e("ZZ", "001", "AAAAZZ00", checksum_algo="09")]),   # entries need not carry the same fields
         ("manual_aa.json", [e("AA", "7", "BBBBAA00"), e("AA", "", "CCCCAA00")]),
         ("manual_dk.v2.json", {"entries": [{"country_code": "DK", "bic": "DDDDDK00", "name": "n", "short_name": "s", "bank_codes": ["0040", "0041"]},
                                             {"country_code": "DK", "bic": "", "name": "m", "short_name": "t", "primary": True, "bank_codes": ["0000"]}],
@@ -183,6 +183,32 @@ def run(ctx, report):
     r_g.instance({"missing registry": o.kind})
     if o.kind != "raise":
         r_g.finding("get:missing", f"get() of a registry without files returns {o.value!r} instead of failing", gf.where)
+
+    # ------------------------------------------------------------------ R18-real: the bundled files themselves
+    # Every other check reads the bundled data through the checker's own loader (datamodel.py).  Here the tree's get() is evaluated on
+    # the real files (virtual directory filled with their parsed contents, adversarial listing order) and must produce exactly that data:
+    # whatever registry.py does to the data on the way in (normalising, filtering, re-ordering, defaulting) is seen here.
+    import json as _json
+    import os as _os
+    r_real = report.rule("R18-real", floor=2, what="get('iban') / get('bank') evaluated on the real bundled files equal the data model every other check uses")
+    real_reg = ctx.registry
+    for name, want_real in (("iban", real_reg.countries), ("bank", real_reg.banks)):
+        d = _os.path.join(real_reg.pkgdir, f"{name}_registry")
+        files = []
+        for fn in sorted(_os.listdir(d)):
+            if fn.endswith(".json"):
+                with open(_os.path.join(d, fn), encoding="utf-8") as fp:
+                    files.append((fn, _json.load(fp)))
+        itr = fresh_interp(ctx)
+        itr.max_steps = 50_000_000
+        itr.vfs = {("path", "schwifty", f"{name}_registry"): files + [("README.md", None)]}
+        itr.glob_order = lambda xs: sorted(xs, reverse=True)
+        o = _run(itr, lambda: itr.call_func(gf, [name], {}, None), f"registry.get({name!r}) on the bundled files")
+        same = o.kind == "return" and o.value == want_real
+        r_real.instance({"registry": name, "files": [f for f, _ in files], "entries": len(want_real), "equal": bool(same)})
+        if not same:
+            what = f"raises {o.value.name} at {o.value.where}" if o.kind == "raise" else _first_difference(o.value, want_real)
+            r_real.finding(f"get:real:{name}", f"get({name!r}) evaluated on the bundled files does not give the composition the other checks assume: {what}", gf.where)
 
     # ------------------------------------------------------------------ R18-index
     r_i = report.rule("R18-index", floor=3, what="build_index: accumulating index skips empty keys (and tuples with an empty member); plain index keeps the last entry")
@@ -248,6 +274,27 @@ def run(ctx, report):
     report.analysed = {"merge pairs": n, "registry.get call sites": n_reads}
     report.not_decided += ["merge_dicts on documents outside the bounded shape space (deeper than four levels, keys beyond three per level) is inferred from the exhaustive agreement inside it"]
     report.trusted += ["sv/datamodel.py (deep_merge, expand_v2: the composition as stated by C18 and the registry READMEs)"]
+
+
+def _first_difference(got, want):
+    if type(got) is not type(want):
+        return f"a {type(got).__name__} instead of a {type(want).__name__}"
+    if isinstance(want, list):
+        if len(got) != len(want):
+            return f"{len(got)} entries instead of {len(want)}"
+        for i, (a, b) in enumerate(zip(got, want)):
+            if a != b:
+                return f"entry {i} is {_brief(a)}, expected {_brief(b)}"
+    if isinstance(want, dict):
+        for k in want:
+            if k not in got:
+                return f"key {k!r} is missing"
+            if got[k] != want[k]:
+                return f"key {k!r} is {_brief(got[k])}, expected {_brief(want[k])}"
+        for k in got:
+            if k not in want:
+                return f"unexpected key {k!r}"
+    return "values differ"
 
 
 def _brief(v):
